@@ -95,9 +95,8 @@ fn mk(mut e: E, w: u8) -> Case {
 
 pub fn check(c: &Case) -> Outcome {
     let full = wrap(c.expr.clone(), c.wrap);
-    let mut st = St::new(&[], vec![]);
-    let model = eval(&full, &mut st);
-    if let Err(Stop::Unsupported(w)) = &model {
+    let variants = crate::props::c03::model_variants(&full, &[], &vec![], false);
+    if let Err(Stop::Unsupported(w)) = &variants[0].0 {
         return Outcome::Skip(w);
     }
     let src = full.render();
@@ -106,6 +105,8 @@ pub fn check(c: &Case) -> Outcome {
         Ran::Done(r) => r,
         o => return fail(format!("`{src}`: {}", o.show())),
     };
+    let k = variants.iter().position(|(_, st)| st.log == log).unwrap_or(0);
+    let (model, st) = (variants[k].0.clone(), &variants[k].1);
     if log != st.log {
         return fail(format!("`{src}`: host calls that must happen {:?}, host calls observed {:?} (result model {:?}, interpreter {})", st.log, log, model, got.show()));
     }
@@ -165,6 +166,28 @@ pub fn run(r: &mut Runner) {
         move |i| mk(E::Cond(b(depth1(REDUCED, (i / (b1 * b1)) as usize)), b(depth1(REDUCED, ((i / b1) % b1) as usize)), b(depth1(REDUCED, (i % b1) as usize))), 0),
         check,
     );
+    {
+        // conditionals directly inside conditionals (else-if chains and their mirror images), exhaustive over the reduced alphabet
+        let leaves = REDUCED as u64;
+        let conds = leaves * leaves * leaves; // depth-1 conditionals
+        let opts = leaves + conds; // a branch: a leaf or a conditional
+        r.sweep_fn(
+            "depth2-nested-conditionals",
+            opts * opts * opts,
+            move |i| {
+                let pick = |k: u64| -> E {
+                    if k < leaves {
+                        leaf(k as usize)
+                    } else {
+                        let j = k - leaves;
+                        E::Cond(b(leaf((j / (leaves * leaves)) as usize)), b(leaf(((j / leaves) % leaves) as usize)), b(leaf((j % leaves) as usize)))
+                    }
+                };
+                mk(E::Cond(b(pick(i / (opts * opts))), b(pick((i / opts) % opts)), b(pick(i % opts))), 0)
+            },
+            check,
+        );
+    }
     let n = r.tier.n(15_000, 500_000);
     r.random(
         "random-depth-3-4",
